@@ -43,7 +43,7 @@ func newSearchColl(o *Opts, rng *rand.Rand, idx int, n int) *searchColl {
 	}
 	sc.c = c
 	for i := 0; i < n; i++ {
-		sc.add(rng, uint64(rng.Intn(n*2+1)))
+		sc.add(rng, genID(rng, n*2+1))
 	}
 	// history: overwrites, updates, deletes
 	for i := 0; i < n/3; i++ {
@@ -405,8 +405,28 @@ func searchC16(o *Opts) {
 		for _, r := range full.Results {
 			fullIDs = append(fullIDs, fmt.Sprint(r.ID))
 		}
+		// direct oracles: the property fixes no particular order, only that there is one. The full listing
+		// holds every accepted live id exactly once, and asking again gives the same order. (That the
+		// order is sort.Strings on decimal ids is part of the model tie below, not of the property.)
+		sf, sa := append([]string{}, fullIDs...), append([]string{}, all...)
+		sort.Strings(sf)
+		sort.Strings(sa)
+		if strings.Join(sf, ",") != strings.Join(sa, ",") {
+			res.Violate("impl-failure", "C16/full-listing-wrong", fmt.Sprintf("full listing %v, accepted live ids %v", fullIDs, all), map[string]any{"items": its, "filter": f.name})
+		}
+		for rep := 0; rep < 2; rep++ {
+			again := sc.c.Search(syzgydb.SearchArgs{Filter: f.fn})
+			var ag []string
+			for _, r := range again.Results {
+				ag = append(ag, fmt.Sprint(r.ID))
+			}
+			if strings.Join(ag, ",") != strings.Join(fullIDs, ",") {
+				res.Violate("impl-failure", "C16/listing-order-not-fixed", fmt.Sprintf("two full listings of the same state: %v then %v", fullIDs, ag), map[string]any{"items": its, "filter": f.name})
+				break
+			}
+		}
 		if strings.Join(fullIDs, ",") != strings.Join(all, ",") {
-			res.Violate("impl-failure", "C16/full-listing-wrong", fmt.Sprintf("full listing %v, accepted live ids in listing order %v", fullIDs, all), map[string]any{"items": its, "filter": f.name})
+			res.Violate("tie-broken", "tie/listing-order", fmt.Sprintf("full listing %v, model order (sort.Strings on decimal ids) %v", fullIDs, all), map[string]any{"items": its, "filter": f.name})
 		}
 		var pairs [][2]int
 		if n <= 12 {
@@ -454,15 +474,15 @@ func searchC16(o *Opts) {
 			}
 			// direct oracle: the slice of the full listing
 			lo := mo
-			if lo > len(all) {
-				lo = len(all)
+			if lo > len(fullIDs) {
+				lo = len(fullIDs)
 			}
-			hi := len(all)
+			hi := len(fullIDs)
 			if ml > 0 && lo+ml < hi {
 				hi = lo + ml
 			}
-			if strings.Join(got, ",") != strings.Join(all[lo:hi], ",") {
-				res.Violate("impl-failure", "C16/page-not-slice", fmt.Sprintf("page (offset %d, limit %d) = %v, slice of the full listing = %v", off, lim, got, all[lo:hi]), replay)
+			if strings.Join(got, ",") != strings.Join(fullIDs[lo:hi], ",") {
+				res.Violate("impl-failure", "C16/page-not-slice", fmt.Sprintf("page (offset %d, limit %d) = %v, slice of the full listing %v = %v", off, lim, got, fullIDs, fullIDs[lo:hi]), replay)
 			}
 		}
 		if ci < 2 {
